@@ -124,6 +124,10 @@ type Property struct {
 	// Sim is true when Run executes inside synctest bubbles with the scheduler
 	// (the process is then a sim process: shims are no-ops outside runs).
 	Sim bool
+	// SimCase, if set, tells per case whether it runs inside bubbles: the property then mixes storage-level cases
+	// (real primitives, no scheduler) with whole-server cases. A process runs only one of the two kinds: the
+	// driver gives a quarter of its workers the tier "<tier>+sim", which Gen turns into whole-server cases.
+	SimCase func(c Case) bool
 }
 
 var registry = map[string]*Property{}
